@@ -158,9 +158,41 @@ def run_case(sub, case):
     return out
 
 
+def run_case_isolated(sub, case):
+    """run_case in a child forked for this one case.  Used for sub-checks whose cases are histories over module state
+    (`isolate = True`: the `after:` pairs): the process that forks never executes the library itself, so the case starts
+    from the state of the building process and its verdict is a function of the case alone - the replay, in a fresh
+    process, sees the same history."""
+    import pickle
+    r, w = os.pipe()
+    pid = os.fork()
+    if pid == 0:
+        try:
+            os.close(r)
+            o = run_case(sub, case)
+            data = pickle.dumps((o.disc, o.nontrivial, o.outcome, o.states, o.transitions, o.traces))
+            with os.fdopen(w, "wb") as f:
+                f.write(data)
+        except BaseException:  # noqa
+            pass
+        finally:
+            os._exit(0)
+    os.close(w)
+    with os.fdopen(r, "rb") as f:
+        data = f.read()
+    os.waitpid(pid, 0)
+    out = Outcome()
+    try:
+        out.disc, out.nontrivial, out.outcome, out.states, out.transitions, out.traces = pickle.loads(data)
+    except Exception:  # noqa
+        out.fail("the isolated execution died without a result", harness_exception=True)
+    return out
+
+
 def _work(job):
     si, lo, hi = job
     sub = _SUBS[si]
+    runner = run_case_isolated if getattr(sub, "isolate", False) else run_case
     ev = 0
     nontriv = set()
     outcomes = set()
@@ -180,7 +212,7 @@ def _work(job):
             # the violation is on record, the rest of the chunk is counted as not itemised instead of being waited for
             dropped += hi - i
             break
-        out = run_case(sub, case)
+        out = runner(sub, case)
         if any(d.get("tags", {}).get("timeout") for d in out.disc):
             timeouts += 1
         ev += 1
@@ -320,14 +352,21 @@ def run_property(prop, tier, seed, replay=None, jobs=None, only=None):
             work.append((si, lo, min(n, lo + ch)))
     per = {s.name: dict(evaluations=0, nontrivial=set(), outcomes=set(), states=set(), transitions=0,
                         traces=0, discs=[], ndisc=0, samples=[], size=s.size(), known={}, dropped=0) for s in subs}
-    if jobs > 1 and len(work) > 1:
+    # two phases, each with its own pool: the isolated sub-checks run in workers that have executed nothing before and
+    # fork a child per case (so these workers never execute the library themselves)
+    phases = [[w for w in work if not getattr(subs[w[0]], "isolate", False)],
+              [w for w in work if getattr(subs[w[0]], "isolate", False)]]
+    for phase in phases:
+      if not phase:
+        continue
+      if jobs > 1 and len(phase) > 1:
         ctx = multiprocessing.get_context("fork")
         pool = ctx.Pool(jobs)
-        it = pool.imap_unordered(_work, work, chunksize=1)
-    else:
+        it = pool.imap_unordered(_work, phase, chunksize=1)
+      else:
         pool = None
-        it = map(_work, work)
-    try:
+        it = map(_work, phase)
+      try:
         for (si, lo, ev, nontriv, outcomes, states, transitions, traces, discs, ndisc, samples, known, dropped) in it:
             p = per[subs[si].name]
             p["evaluations"] += ev
@@ -344,7 +383,7 @@ def run_property(prop, tier, seed, replay=None, jobs=None, only=None):
                 p["known"][k] = p["known"].get(k, 0) + v
             if lo == 0 or len(p["samples"]) < SAMPLE_CAP:
                 p["samples"].extend(samples)
-    finally:
+      finally:
         if pool is not None:
             pool.close()
             pool.join()
